@@ -452,12 +452,17 @@ func (x *cmpCtx) compare(cl call, items []item) []disc {
 		out = append(out, x.paint(*it, s.Fill, "fill")...)
 	}
 	if s.HasStroke() {
-		it := next()
-		if it == nil {
-			return append(out, disc{x.backend + ":order:stroke-missing", "no item painted for the stroke"})
-		}
 		sim := similarity(cl.m)
 		jok, jcode, jlimit := joinExpressible(x.backend, s.StrokeJoiner)
+		it := next()
+		if it == nil {
+			// an empty outline (fallback route) paints nothing: PDF writes nothing, PostScript fills an empty path
+			if cl.outlineEmpty && (sim == simNo || !jok) {
+				x.c.Count(x.backend + ":empty-outline-nothing-painted")
+				return out
+			}
+			return append(out, disc{x.backend + ":order:stroke-missing", "no item painted for the stroke"})
+		}
 		switch it.kind {
 		case "stroke":
 			if sim == simBorderline {
